@@ -19,8 +19,8 @@ func init() {
 			"advertised subsets of {a,b,c,sasl,x} (32) x reply {ACK, NAK, ACK then later ACK of '-cap'} x SASL outcome {903, 904, 908}; plus PRNG sets of 50..300 capabilities that force the request to be split over several lines. " +
 			"A trace automaton over the wire transcript and SupportsCapability/HasCapability at sync markers checks: the union of CAP REQ arguments equals wanted-and-advertised with no capability twice and no REQ when it is empty, " +
 			"HasCapability equals 'latest ACK enabled it', a CAP END exists at quiescence after NAK / ACK not starting SASL / empty intersection / 903 / 904 / 908, no AUTHENTICATE before the server ACKed sasl, credentials only after the server's " +
-			"'AUTHENTICATE +', payload = base64 of what the mechanism prescribes. distinct_nontrivial = distinct (|wanted|, sasl kind, |advertised|, sasl advertised, reply, outcome) cells.",
-		Assumptions: []string{"advertisements accumulating across reconnects are outside the stated quantifier (one negotiation per fresh client)", "quiescence = a PING/PONG round trip after the server's last line"},
+			"'AUTHENTICATE +', payload = base64 of what the mechanism prescribes. Every fifth SASL case drops the link right after the mechanism line and repeats the whole negotiation on the same client against the same server; every other non-SASL case with SASL configured gets an unasked 'AUTHENTICATE +' (no data may follow); every fourth case ends with a second CAP LS that advertises more (the answering request must be wanted-and-advertised-so-far). distinct_nontrivial = distinct (|wanted|, sasl kind, |advertised|, sasl advertised, reply, outcome) cells.",
+		Assumptions: []string{"advertisements accumulating across reconnects are outside the stated quantifier: a repeated negotiation always meets the same advertised set", "quiescence = a PING/PONG round trip after the server's last line"},
 		Plan: func(tier string, seed int64) []Batch {
 			bs := splitBatches("exh", 8, true, 2, map[string]string{"mode": "exh"})
 			n := 1
@@ -184,221 +184,303 @@ func c19Run(c *Ctx, gen string, idx int, k c19Case) bool {
 		c.R.Inconcl("connect: " + err.Error())
 		return false
 	}
-	quiesce := func() bool {
-		if !s.WireMarker(mc) {
-			ds := rig.ProveDead(WaitShort)
-			if ds.Dead {
-				viol("negotiation-stuck", "PING after the server's last line was never answered; dead state "+ds.Signature)
-			} else {
-				c.R.Inconcl(fmt.Sprintf("%s: no PONG (%s)", Case(gen, idx), ds.Reason))
-			}
-			return false
-		}
-		return true
-	}
-	if !AwaitRegistration(mc) || !quiesce() {
-		return false
-	}
-	wanted := setOf(k.Wanted)
-	if sc != nil {
-		wanted["sasl"] = true
-	}
-	advertised := setOf(k.Advertised)
-	inter := map[string]bool{}
-	for w := range wanted {
-		if advertised[w] {
-			inter[w] = true
-		}
-	}
-	mc.SendLine(":srv CAP * LS :" + strings.Join(k.Advertised, " "))
-	if !quiesce() {
-		return false
-	}
-	// Supports == advertised
-	for _, a := range append(append([]string{}, k.Advertised...), "x", "never") {
-		if got := conn.SupportsCapability(a); got != advertised[a] {
-			viol("supports", fmt.Sprintf("SupportsCapability(%q) = %v after LS", a, got))
-			break
-		}
-	}
-	capLines := func() (reqs [][]string, ends int, auth []string, all []string) {
-		for _, l := range mc.Lines() {
-			switch {
-			case strings.HasPrefix(l, "CAP REQ"):
-				arg := strings.TrimPrefix(strings.TrimPrefix(l, "CAP REQ"), " ")
-				arg = strings.TrimPrefix(arg, ":")
-				reqs = append(reqs, strings.Fields(arg))
-				all = append(all, l)
-			case l == "CAP END":
-				ends++
-				all = append(all, l)
-			case strings.HasPrefix(l, "AUTHENTICATE "):
-				auth = append(auth, strings.TrimPrefix(l, "AUTHENTICATE "))
-				all = append(all, l)
-			case strings.HasPrefix(l, "CAP "):
-				all = append(all, l)
-			}
-		}
-		return
-	}
-	reqs, ends, auth, _ := capLines()
-	// 1. requested == wanted ∩ advertised
-	reqSet := map[string]int{}
-	for _, rq := range reqs {
-		for _, x := range rq {
-			reqSet[x]++
-		}
-	}
-	var reqNames []string
-	for x, n := range reqSet {
-		reqNames = append(reqNames, x)
-		if n > 1 {
-			viol("requested-twice", fmt.Sprintf("capability %q requested %d times", x, n))
-		}
-	}
-	sort.Strings(reqNames)
-	if strings.Join(reqNames, " ") != strings.Join(sortedSet(inter), " ") {
-		viol("requested-set", fmt.Sprintf("requested %v, wanted-and-advertised is %v", clip(reqNames), clip(sortedSet(inter))))
-	}
-	for _, l := range mc.Lines() {
-		if strings.HasPrefix(l, "CAP REQ") && len(l) > 510 {
-			viol("request-too-long", fmt.Sprintf("a CAP REQ line is %d bytes long", len(l)))
-		}
-	}
-	if len(auth) > 0 {
-		viol("authenticate-early", "AUTHENTICATE sent before the server acknowledged sasl")
-	}
-	if len(inter) == 0 {
-		if len(reqs) != 0 {
-			viol("req-on-empty", "CAP REQ sent although nothing is both wanted and advertised")
-		}
-		if ends < 1 {
-			viol("no-end", "no CAP END on an empty intersection")
-		}
-		c19Done(c, gen, idx, k, conn, "empty")
-		return true
-	}
-	if ends != 0 {
-		viol("end-early", "CAP END sent together with the request")
-	}
-	// 2. the server's reply, per request line
-	has := map[string]bool{}
-	saslStarted := false
-	switch k.Reply {
-	case "nak":
-		for _, rq := range reqs {
-			mc.SendLine(":srv CAP * NAK :" + strings.Join(rq, " "))
-		}
-	default:
-		for _, rq := range reqs {
-			// the server may list the acknowledged capabilities in any order
-			ack := append([]string(nil), rq...)
-			switch idx % 3 {
-			case 1:
-				for i, j := 0, len(ack)-1; i < j; i, j = i+1, j-1 {
-					ack[i], ack[j] = ack[j], ack[i]
+	disc := make(chan struct{}, 4)
+	conn.HandleFunc(client.DISCONNECTED, func(_ *client.Conn, l *client.Line) { disc <- struct{}{} })
+	var negotiate func(mc *rig.MemConn, dropMidSasl bool) (bool, bool)
+	negotiate = func(mc *rig.MemConn, dropMidSasl bool) (bool, bool) {
+		quiesce := func() bool {
+			if !s.WireMarker(mc) {
+				ds := rig.ProveDead(WaitShort)
+				if ds.Dead {
+					viol("negotiation-stuck", "PING after the server's last line was never answered; dead state "+ds.Signature)
+				} else {
+					c.R.Inconcl(fmt.Sprintf("%s: no PONG (%s)", Case(gen, idx), ds.Reason))
 				}
-			case 2:
-				if len(ack) > 1 {
-					ack = append(ack[1:], ack[0])
+				return false
+			}
+			return true
+		}
+		if !AwaitRegistration(mc) || !quiesce() {
+			return false, false
+		}
+		wanted := setOf(k.Wanted)
+		if sc != nil {
+			wanted["sasl"] = true
+		}
+		advertised := setOf(k.Advertised)
+		inter := map[string]bool{}
+		for w := range wanted {
+			if advertised[w] {
+				inter[w] = true
+			}
+		}
+		mc.SendLine(":srv CAP * LS :" + strings.Join(k.Advertised, " "))
+		if !quiesce() {
+			return false, false
+		}
+		// Supports == advertised
+		for _, a := range append(append([]string{}, k.Advertised...), "x", "never") {
+			if got := conn.SupportsCapability(a); got != advertised[a] {
+				viol("supports", fmt.Sprintf("SupportsCapability(%q) = %v after LS", a, got))
+				break
+			}
+		}
+		capLines := func() (reqs [][]string, ends int, auth []string, all []string) {
+			for _, l := range mc.Lines() {
+				switch {
+				case strings.HasPrefix(l, "CAP REQ"):
+					arg := strings.TrimPrefix(strings.TrimPrefix(l, "CAP REQ"), " ")
+					arg = strings.TrimPrefix(arg, ":")
+					reqs = append(reqs, strings.Fields(arg))
+					all = append(all, l)
+				case l == "CAP END":
+					ends++
+					all = append(all, l)
+				case strings.HasPrefix(l, "AUTHENTICATE "):
+					auth = append(auth, strings.TrimPrefix(l, "AUTHENTICATE "))
+					all = append(all, l)
+				case strings.HasPrefix(l, "CAP "):
+					all = append(all, l)
 				}
 			}
-			mc.SendLine(":srv CAP * ACK :" + strings.Join(ack, " "))
+			return
+		}
+		reqs, ends, auth, _ := capLines()
+		// 1. requested == wanted ∩ advertised
+		reqSet := map[string]int{}
+		for _, rq := range reqs {
 			for _, x := range rq {
-				has[x] = true
-				if x == "sasl" && sc != nil {
-					saslStarted = true
+				reqSet[x]++
+			}
+		}
+		var reqNames []string
+		for x, n := range reqSet {
+			reqNames = append(reqNames, x)
+			if n > 1 {
+				viol("requested-twice", fmt.Sprintf("capability %q requested %d times", x, n))
+			}
+		}
+		sort.Strings(reqNames)
+		if strings.Join(reqNames, " ") != strings.Join(sortedSet(inter), " ") {
+			viol("requested-set", fmt.Sprintf("requested %v, wanted-and-advertised is %v", clip(reqNames), clip(sortedSet(inter))))
+		}
+		for _, l := range mc.Lines() {
+			if strings.HasPrefix(l, "CAP REQ") && len(l) > 510 {
+				viol("request-too-long", fmt.Sprintf("a CAP REQ line is %d bytes long", len(l)))
+			}
+		}
+		if len(auth) > 0 {
+			viol("authenticate-early", "AUTHENTICATE sent before the server acknowledged sasl")
+		}
+		if len(inter) == 0 {
+			if len(reqs) != 0 {
+				viol("req-on-empty", "CAP REQ sent although nothing is both wanted and advertised")
+			}
+			if ends < 1 {
+				viol("no-end", "no CAP END on an empty intersection")
+			}
+			c19Done(c, gen, idx, k, conn, "empty")
+			return true, false
+		}
+		if ends != 0 {
+			viol("end-early", "CAP END sent together with the request")
+		}
+		// 2. the server's reply, per request line
+		has := map[string]bool{}
+		saslStarted := false
+		switch k.Reply {
+		case "nak":
+			for _, rq := range reqs {
+				mc.SendLine(":srv CAP * NAK :" + strings.Join(rq, " "))
+			}
+		default:
+			for _, rq := range reqs {
+				// the server may list the acknowledged capabilities in any order
+				ack := append([]string(nil), rq...)
+				switch idx % 3 {
+				case 1:
+					for i, j := 0, len(ack)-1; i < j; i, j = i+1, j-1 {
+						ack[i], ack[j] = ack[j], ack[i]
+					}
+				case 2:
+					if len(ack) > 1 {
+						ack = append(ack[1:], ack[0])
+					}
+				}
+				mc.SendLine(":srv CAP * ACK :" + strings.Join(ack, " "))
+				for _, x := range rq {
+					has[x] = true
+					if x == "sasl" && sc != nil {
+						saslStarted = true
+					}
 				}
 			}
 		}
-	}
-	if !quiesce() {
-		return false
-	}
-	_, ends, auth, _ = capLines()
-	if saslStarted {
-		if len(reqs) == 1 && ends != 0 {
-			viol("end-before-sasl-outcome", "CAP END was sent although the acknowledgement started SASL authentication and no outcome has arrived yet")
-		}
-		if len(auth) != 1 || auth[0] != mech {
-			viol("mechanism-line", fmt.Sprintf("after ACK of sasl the client sent AUTHENTICATE %v, want exactly [%s] (credentials only after the server's '+')", auth, mech))
-		}
-		mc.SendLine("AUTHENTICATE +")
 		if !quiesce() {
-			return false
+			return false, false
 		}
-		_, _, auth, _ = capLines()
-		if len(auth) != 2 || auth[1] != wantPayload {
-			viol("sasl-payload", fmt.Sprintf("AUTHENTICATE lines %v, want [%s %s]", auth, mech, wantPayload))
-		}
-		switch k.Outcome {
-		case "903":
-			mc.SendLine(":srv 903 me :SASL authentication successful")
-		case "904":
-			mc.SendLine(":srv 904 me :SASL authentication failed")
-		case "908":
-			mc.SendLine(":srv 908 me PLAIN,EXTERNAL :are available SASL mechanisms")
-		}
-		if !quiesce() {
-			return false
-		}
-		_, ends, _, _ = capLines()
-		if ends < 1 {
-			viol("no-end", fmt.Sprintf("no CAP END after SASL outcome %s", k.Outcome))
-		}
-	} else {
-		if len(auth) != 0 {
-			viol("authenticate-unasked", fmt.Sprintf("AUTHENTICATE %v sent although SASL was not started (reply %s)", auth, k.Reply))
-		}
-		if ends < 1 {
-			viol("no-end", fmt.Sprintf("no CAP END after %s", k.Reply))
-		}
-	}
-	if k.Reply == "ack-then-minus" {
-		var names []string
-		for x := range has {
-			names = append(names, x)
-		}
-		sort.Strings(names)
-		if len(names) > 0 {
-			off := names[0]
-			mc.SendLine(":srv CAP * ACK :-" + off)
-			has[off] = false
+		_, ends, auth, _ = capLines()
+		if saslStarted {
+			if len(reqs) == 1 && ends != 0 {
+				viol("end-before-sasl-outcome", "CAP END was sent although the acknowledgement started SASL authentication and no outcome has arrived yet")
+			}
+			if len(auth) != 1 || auth[0] != mech {
+				viol("mechanism-line", fmt.Sprintf("after ACK of sasl the client sent AUTHENTICATE %v, want exactly [%s] (credentials only after the server's '+')", auth, mech))
+			}
+			if dropMidSasl {
+				// the link drops in the middle of the SASL exchange; the same client then connects again and the whole
+				// negotiation runs once more against the same server
+				mc.SendEOF()
+				if !waitCh(chanOf(disc)) {
+					c.R.Inconcl(fmt.Sprintf("%s: no DISCONNECTED after the link dropped mid-SASL", Case(gen, idx)))
+					return false, false
+				}
+				return true, true
+			}
+			mc.SendLine("AUTHENTICATE +")
 			if !quiesce() {
-				return false
+				return false, false
 			}
-		}
-	}
-	// a later request naming a held capability together with one the server refuses is NAKed as a whole:
-	// a NAK acknowledges nothing, what is held stays held
-	if idx%2 == 0 {
-		var held []string
-		for x, on := range has {
-			if on {
-				held = append(held, x)
+			_, _, auth, _ = capLines()
+			if len(auth) != 2 || auth[1] != wantPayload {
+				viol("sasl-payload", fmt.Sprintf("AUTHENTICATE lines %v, want [%s %s]", auth, mech, wantPayload))
 			}
-		}
-		sort.Strings(held)
-		if len(held) > 0 {
-			conn.Cap("REQ", held[0], "never-supported")
-			mc.WaitLineFrom(WaitLong, 0, func(l string) bool { return strings.HasPrefix(l, "CAP REQ") && strings.Contains(l, "never-supported") })
-			mc.SendLine(":srv CAP * NAK :" + held[0] + " never-supported")
+			switch k.Outcome {
+			case "903":
+				mc.SendLine(":srv 903 me :SASL authentication successful")
+			case "904":
+				mc.SendLine(":srv 904 me :SASL authentication failed")
+			case "908":
+				mc.SendLine(":srv 908 me PLAIN,EXTERNAL :are available SASL mechanisms")
+			}
 			if !quiesce() {
-				return false
+				return false, false
+			}
+			_, ends, _, _ = capLines()
+			if ends < 1 {
+				viol("no-end", fmt.Sprintf("no CAP END after SASL outcome %s", k.Outcome))
+			}
+		} else {
+			if len(auth) != 0 {
+				viol("authenticate-unasked", fmt.Sprintf("AUTHENTICATE %v sent although SASL was not started (reply %s)", auth, k.Reply))
+			}
+			if ends < 1 {
+				viol("no-end", fmt.Sprintf("no CAP END after %s", k.Reply))
+			}
+			if sc != nil && idx%2 == 1 {
+				// a server that prompts for SASL data although it never acknowledged sasl gets none
+				mc.SendLine("AUTHENTICATE +")
+				if !quiesce() {
+					return false, false
+				}
+				if _, _, auth, _ = capLines(); len(auth) != 0 {
+					viol("sasl-data-without-ack", fmt.Sprintf("AUTHENTICATE %v sent in answer to a prompt although the server never acknowledged sasl (reply %s, sasl advertised: %v)", auth, k.Reply, advertised["sasl"]))
+				}
 			}
 		}
-	}
-	// 3. HasCapability == latest ACK enabled it
-	probe := append(append([]string{}, sortedSet(wanted)...), k.Advertised...)
-	probe = append(probe, "x", "never")
-	for _, x := range probe {
-		if got := conn.HasCapability(x); got != has[x] {
-			viol("has", fmt.Sprintf("HasCapability(%q) = %v, the server's latest acknowledgement says %v", x, got, has[x]))
-			break
+		if k.Reply == "ack-then-minus" {
+			var names []string
+			for x := range has {
+				names = append(names, x)
+			}
+			sort.Strings(names)
+			if len(names) > 0 {
+				off := names[0]
+				mc.SendLine(":srv CAP * ACK :-" + off)
+				has[off] = false
+				if !quiesce() {
+					return false, false
+				}
+			}
 		}
+		// a later request naming a held capability together with one the server refuses is NAKed as a whole:
+		// a NAK acknowledges nothing, what is held stays held
+		if idx%2 == 0 {
+			var held []string
+			for x, on := range has {
+				if on {
+					held = append(held, x)
+				}
+			}
+			sort.Strings(held)
+			if len(held) > 0 {
+				conn.Cap("REQ", held[0], "never-supported")
+				mc.WaitLineFrom(WaitLong, 0, func(l string) bool { return strings.HasPrefix(l, "CAP REQ") && strings.Contains(l, "never-supported") })
+				mc.SendLine(":srv CAP * NAK :" + held[0] + " never-supported")
+				if !quiesce() {
+					return false, false
+				}
+			}
+		}
+		// 3. HasCapability == latest ACK enabled it
+		probe := append(append([]string{}, sortedSet(wanted)...), k.Advertised...)
+		probe = append(probe, "x", "never")
+		for _, x := range probe {
+			if got := conn.HasCapability(x); got != has[x] {
+				viol("has", fmt.Sprintf("HasCapability(%q) = %v, the server's latest acknowledgement says %v", x, got, has[x]))
+				break
+			}
+		}
+		if idx%4 == 1 {
+			// the server lists its capabilities once more, now with more of them: the request that answers it names
+			// what is wanted and advertised (so far), nothing else and nothing less
+			adv2 := append([]string{}, k.Advertised...)
+			for _, w := range sortedSet(wanted) {
+				if !advertised[w] {
+					adv2 = append(adv2, w)
+				}
+			}
+			adv2 = append(adv2, "y")
+			from2 := mc.NumLines()
+			mc.SendLine(":srv CAP * LS :" + strings.Join(adv2, " "))
+			if !quiesce() {
+				return false, false
+			}
+			got2 := map[string]bool{}
+			ends2 := 0
+			for _, l := range mc.Lines()[from2:] {
+				if strings.HasPrefix(l, "CAP REQ") {
+					for _, x := range strings.Fields(strings.TrimPrefix(strings.TrimPrefix(strings.TrimPrefix(l, "CAP REQ"), " "), ":")) {
+						got2[x] = true
+					}
+				}
+				if l == "CAP END" {
+					ends2++
+				}
+			}
+			want2 := map[string]bool{}
+			for w := range wanted {
+				if advertised[w] || setOf(adv2)[w] {
+					want2[w] = true
+				}
+			}
+			if strings.Join(sortedSet(got2), " ") != strings.Join(sortedSet(want2), " ") {
+				viol("second-ls-requested-set", fmt.Sprintf("after a second CAP LS advertising %v the client requested %v, wanted-and-advertised is %v", clip(adv2), clip(sortedSet(got2)), clip(sortedSet(want2))))
+			}
+			if len(want2) == 0 && ends2 < 1 {
+				viol("no-end", "no CAP END after a second CAP LS with an empty intersection")
+			}
+			if len(got2) > 0 {
+				mc.SendLine(":srv CAP * NAK :" + strings.Join(sortedSet(got2), " "))
+				if !quiesce() {
+					return false, false
+				}
+			}
+		}
+		c19Done(c, gen, idx, k, conn, fmt.Sprintf("sasl-started=%v", saslStarted))
+		return true, false
 	}
-	c19Done(c, gen, idx, k, conn, fmt.Sprintf("sasl-started=%v", saslStarted))
-	return true
+	ok, dropped := negotiate(mc, idx%5 == 2)
+	if ok && dropped {
+		mc2, err := s.Connect()
+		if err != nil {
+			viol("reconnect-after-dropped-sasl", "Connect after the link dropped mid-SASL failed: "+err.Error())
+			return true
+		}
+		c.R.Count("negotiations_repeated_after_a_drop_mid_sasl", 1)
+		ok, _ = negotiate(mc2, false)
+	}
+	return ok
 }
 
 func c19Done(c *Ctx, gen string, idx int, k c19Case, conn *client.Conn, note string) {
